@@ -1376,6 +1376,54 @@ def _install(w):
         return find_assignment
     patch(Loader, 'find_assignment', mk_find_assignment)
 
+    def _load_app_in(self, appname, manifest):
+        """What load_app looks at besides the manifest, before the call: the assignments of the instance's proid
+        (pattern matches?, priority, allocation OBJECT - resolved to the model's id after the call, without
+        interning), the blacklist matches.  None: a manifest this tie does not decode."""
+        import fnmatch as _fn
+        try:
+            key = w.loader_mod._alloc_key(appname)                        # pylint: disable=protected-access
+            asg = [(bool(pat.match(appname)), prio, al) for pat, prio, al in (self.assignments.get(key) or [])]
+            base = appname.split('#')[0]
+            bl = [bool(_fn.fnmatch(base, b)) for b in self.apps_blacklist]
+            if manifest:
+                w.loader_mod._get_data_retention(manifest)                # pylint: disable=protected-access
+                w.loader_mod._get_lease(manifest)                         # pylint: disable=protected-access
+                int(manifest.get('priority', 0))
+        except Exception:  # pylint: disable=broad-except
+            return None
+        return asg, bl
+
+    def _manifest_tok(manifest):
+        if not manifest:
+            return '~'
+        lm = w.loader_mod
+        dem = lm.resources(manifest)
+        lim = manifest.get('affinity_limits') or {}
+        lims = ','.join('%d:%d' % (_lvl(k), v) for k, v in sorted(lim.items(), key=lambda kv: _lvl(kv[0]))) or '-'
+        grp = manifest.get('identity_group')
+        ret = lm._get_data_retention(manifest)                            # pylint: disable=protected-access
+        mask = orig_encode(dict(w.m.trait_codes), manifest.get('traits', []), use_invalid=True)[0]
+        return '/'.join([
+            '%d' % int(manifest['priority']) if 'priority' in manifest else '~',
+            '%d,%d,%d' % (int(dem[0]), int(dem[1]), int(dem[2])),
+            '%d' % w.aff_id.get(manifest.get('affinity'), 0), lims,
+            '%d' % int(grp[1:]) if grp else 'none', '1' if manifest.get('schedule_once') else '0',
+            'none' if ret is None else '%d' % int(ret), '%d' % int(lm._get_lease(manifest)), '%d' % mask])
+
+    def _assign_tok(self, appname, fin):
+        asg, bl = fin
+        part = self.cell.partitions.get('_default') if hasattr(self.cell.partitions, 'get') else None
+        dflt = None
+        if part is not None:
+            un = part.allocation.sub_allocations.get('_default')
+            if un is not None:
+                dflt = un.sub_allocations.get(appname.split('.', 1)[0])
+        return '%s %d %s' % (
+            ','.join('%d:%d:%d' % (1 if mt else 0, prio, w.alloc_id.get(id(al), 0)) for mt, prio, al in asg) or '-',
+            w.alloc_id.get(id(dflt), 0) if dflt is not None else 0,
+            ','.join('1' if b else '0' for b in bl) or '-')
+
     def mk_load_app(orig):
         def load_app(self, appname):
             if not _live(self):
@@ -1384,7 +1432,18 @@ def _install(w):
             existed = appname in self.cell.apps
             w.load_calls.append(appname)
             w.last_assign = None
-            r = orig(self, appname)
+            fon = _fops_on(self)
+            lvl, i0 = w.fops_lvl, len(w.run.lines)
+            if fon:
+                fin = _load_app_in(self, appname, manifest)
+            w.fops_lvl += 1
+            try:
+                r = orig(self, appname)
+            finally:
+                w.fops_lvl -= 1
+            if fon and fin is not None:
+                _fops('loadapp', '%d %s %d %s' % (aid_of(appname), _manifest_tok(manifest), 1 if existed else 0,
+                                                  _assign_tok(self, appname, fin)), i0, lvl)
             app = self.cell.apps.get(appname)
             if not manifest or app is None or w.last_assign is None or w.last_assign[0] != appname:
                 return r
@@ -1435,8 +1494,22 @@ def _install(w):
                 stored.append('%d:%s' % (int(name[1:]), 'e' if not ident else
                                          ('n' if 'count' not in ident else '%d' % ident['count'])))
             n0 = len(w.idg_calls)
+            fon, i0 = _fops_on(self), len(w.run.lines)
             r = orig(self)
             calls = w.idg_calls[n0:]
+            if fon:
+                # (both loops of load_identity_groups iterate Python sets: within each group of calls the
+                # recorded lines are compared in the order of the ids)
+                got = [c_ for c_ in _calls_since(i0).split(';') if c_ != '-']
+                rm_ = sorted((c_ for c_ in got if c_.startswith('rmidg ')), key=lambda t: int(t.split(' ')[1]))
+                n_rm = 0
+                while n_rm < len(got) and got[n_rm].startswith('rmidg '):
+                    n_rm += 1
+                rest_ = got[n_rm:]
+                if all(c_.startswith('idg ') for c_ in rest_):
+                    rest_ = sorted(rest_, key=lambda t: int(t.split(' ')[1]))
+                _fops('idg', '%s %s' % (','.join(str(i) for i in existing) or '-', ','.join(stored) or '-'), i0, 0,
+                      expected=';'.join(rm_[:n_rm] + rest_) or '-')
             w.run.op('fidg %s %s' % (','.join(str(i) for i in existing) or '-', ','.join(stored) or '-'),
                      'rm=%s cfg=%s' % (
                          ','.join(str(i) for i in sorted(int(c[1][1:]) for c in calls if c[0] == 'rm')) or '-',
